@@ -3,6 +3,7 @@ import Amgcl.Proofs.Deflation
 import Amgcl.Proofs.CPRApp
 import Amgcl.Proofs.CPRPass
 import Amgcl.Proofs.CPRWeights
+import Amgcl.Proofs.CPRBlock
 import Amgcl.Proofs.C18Examples
 /-!
 # C18 — composite preconditioners realise their block formulas
@@ -20,7 +21,7 @@ Schur pressure correction (`schur_pressure_correction.hpp`), for EVERY pressure 
 * `schur2_block_triangular` : `type = 2` solves `S p = f_p`, `Kuu u + Kup p = f_u`.
 
 CPR (`cpr.hpp`): `cpr_formula`, `cpr_pressure_matrix` + `cpr_weights` (the pressure matrix is the first-row-of-inverse-
-diagonal-block weighting of `A`), `cpr_partial_update_noop` (scalar input, sorted rows).
+diagonal-block weighting of `A`), `cpr_partial_update_noop` (scalar input, sorted rows), `cpr_scalar_eq_block`.
 
 Deflated solver (`deflated_solver.hpp`): `deflation_E` (`E = Zᵀ A Z`), `deflation_projects`
 (`Zᵀ (b - A x) = 0` after `project`), `deflation_exact_precond` (with an exact preconditioner and `preonly` the
@@ -342,6 +343,25 @@ theorem cpr_partial_update_noop (A : CRS K) (hs : A.sortedb = true) (B act : Nat
     (partialUpdateScalar (initScalar A B act) A B act upd).apply mkS Pf f = (initScalar A B act).apply mkS Pf f := by
   have h := partialUpdateScalar_same A hs B act hB upd
   exact ⟨h, by rw [h]⟩
+
+/-- **scalar input with `block_size = B` and `B × B` block input are treated identically**: for a block matrix with
+sorted block rows, the block constructor (fixed code 912e27f) and the scalar constructor on the expanded matrix
+(every stored block written out as `B × B` scalar entries, `active_rows` scaled by `B`) produce the same `Fpp`, the
+same pressure matrix `App` (entry by entry, in the same stored order), the same `Scatter` rows, the same outcome
+flags — hence the same action, for every `active_rows` setting. -/
+theorem cpr_scalar_eq_block (Ab : CRS (Blk K)) (hs : Ab.sortedb = true) (B act : Nat) (hB : 0 < B)
+    (hact : act ≤ Ab.nrows) :
+    let ss := initScalar (expand B Ab) B (act * B)
+    let sb := initBlock Ab B act
+    ss.np = sb.np ∧ ss.Fpp = sb.Fpp ∧ ss.App = sb.App ∧ ss.AS = sb.AS ∧
+    ss.uninit = sb.uninit ∧ ss.zeroPivot = sb.zeroPivot ∧ (∀ i, ss.Scatter.row i = sb.Scatter.row i) ∧
+    ∀ (mkS : CRS K → Vec K → Vec K) (Pf : Vec K → Vec K) (f : Vec K), ss.apply mkS Pf f = sb.apply mkS Pf f :=
+  initScalar_expand Ab hs B act hB hact
+
+-- non-vacuity: a 3×3 block matrix of 2×2 blocks with sorted block rows, the last block row inactive
+example : C18Ex.Abk.sortedb = true ∧ 2 ≤ C18Ex.Abk.nrows := C18Ex.Abk_ok
+example : (initScalar (expand 2 C18Ex.Abk) 2 (2 * 2)).App = (initBlock C18Ex.Abk 2 2).App :=
+  (cpr_scalar_eq_block C18Ex.Abk C18Ex.Abk_ok.1 2 2 (by decide) C18Ex.Abk_ok.2).2.2.1
 
 end cpr
 
